@@ -129,16 +129,20 @@ func (queue *Queue) Start() error {
 				queue.cmrLock.RLock()
 				defer queue.cmrLock.RUnlock()
 				cmrCount := len(queue.consumers)
+				if cmrCount == 0 {
+					return
+				}
+				// every consumer is signalled, starting after the one that went first last time: the first to
+				// accept the signal may turn out to have no room in its prefetch window, and then nobody else
+				// would learn about the message
 				for i := 0; i < cmrCount; i++ {
 					if !queue.active {
 						return
 					}
 					queue.currentConsumer = (queue.currentConsumer + 1) % cmrCount
-					cmr := queue.consumers[queue.currentConsumer]
-					if cmr.Consume() {
-						return
-					}
+					queue.consumers[queue.currentConsumer].Consume()
 				}
+				queue.currentConsumer = (queue.currentConsumer + 1) % cmrCount
 			}()
 			verifhook.Exit("queue.loop")
 			verifhook.Taken("queue.call")
